@@ -16,7 +16,7 @@ def run(ctx):
                 if quick and (mode == 'more' or (s.name == 'h_nl' and mode == 'input')):
                     continue
                 lens = ([2, 3] if s.name == 'h_words' else [2]) if quick else ([1, 2, 3, 4] if mode != 'more' else [2, 3])
-                js, g = E.e4_jobs(ctx, s, c, mode, lens, maxnul=(0 if quick else 1), timeout=(300 if quick else 1800),
+                js, g = E.e4_jobs(ctx, s, c, mode, lens, maxnul=(1 if (mode == 'input' or not quick) else 0), timeout=(300 if quick else 1800),
                                   mem_mb=(10000 if quick else 24000),
                                   witness_len=(3 if (mode == 'less' and c.name == 'Cem' and s.name == 'h_words') else None))
                 if not g.ok:
